@@ -9,6 +9,8 @@ import (
 	"sort"
 	"sync"
 	"sync/atomic"
+	"container/list"
+	"unsafe"
 
 	tls "github.com/refraction-networking/utls"
 	"verif/harness/hlib"
@@ -81,6 +83,35 @@ func sizes(c tls.ClientSessionCache) (mlen, qlen int) {
 	return m.Len(), int(ln.Int())
 }
 
+// order reads the recency list of the real cache, front (most recently used) to back (next eviction victim), as key
+// numbers (0 for a key name the scenario never used).  Read-only: the list is reached through the unexported field q.
+func order(c tls.ClientSessionCache) []int {
+	rv := reflect.ValueOf(c)
+	for rv.Kind() == reflect.Ptr || rv.Kind() == reflect.Interface {
+		rv = rv.Elem()
+	}
+	q := rv.FieldByName("q")
+	if !q.IsValid() || q.Kind() != reflect.Ptr || q.Type().Elem() != reflect.TypeOf(list.List{}) {
+		panic("lruSessionCache no longer has a field q of type *list.List: cannot observe the recency order")
+	}
+	l := (*list.List)(unsafe.Pointer(q.Pointer()))
+	out := []int{}
+	for e := l.Front(); e != nil; e = e.Next() {
+		ev := reflect.ValueOf(e.Value)
+		for ev.Kind() == reflect.Ptr || ev.Kind() == reflect.Interface {
+			ev = ev.Elem()
+		}
+		f := ev.FieldByName("sessionKey")
+		if !f.IsValid() || f.Kind() != reflect.String {
+			panic("lruSessionCacheEntry no longer has a string field sessionKey")
+		}
+		k := 0
+		fmt.Sscanf(f.String(), "session-key-%d", &k)
+		out = append(out, k)
+	}
+	return out
+}
+
 // perform makes one call on the real cache and returns what came back.
 func perform(c tls.ClientSessionCache, vs *values, o lruOp) (ok bool, rv int, panicked string) {
 	defer func() {
@@ -129,7 +160,7 @@ func init() {
 					break
 				}
 				ml, ql := sizes(c)
-				out.Emit(map[string]any{"ev": "Do", "t": 0, "op": o.Op, "k": o.K, "v": o.V, "ok": ok, "rv": rv, "mlen": ml, "qlen": ql})
+				out.Emit(map[string]any{"ev": "Do", "t": 0, "op": o.Op, "k": o.K, "v": o.V, "ok": ok, "rv": rv, "mlen": ml, "qlen": ql, "order": order(c)})
 			}
 		}
 		return nil
@@ -214,7 +245,7 @@ func init() {
 				out.Emit(s.ev)
 			}
 			ml, ql := sizes(c)
-			out.Emit(map[string]any{"ev": "Final", "mlen": ml, "qlen": ql})
+			out.Emit(map[string]any{"ev": "Final", "mlen": ml, "qlen": ql, "order": order(c)})
 		}
 		return nil
 	})
